@@ -136,6 +136,26 @@ def build_props(pid, force=True):
     return True, {}, assumptions
 
 
+def _prop_files():
+    """property id -> source files it is anchored in (from properties.jsonl), plus the helpers every model function uses"""
+    out = {}
+    try:
+        for line in open(os.path.join(ROOT, "properties.jsonl")):
+            d = json.loads(line)
+            files = list(d.get("anchors", {}).get("files", [])) + ["schwifty/common.py", "schwifty/domain.py"]
+            if d["id"] in ("C06", "C07", "C08", "C09", "C13", "C05"):
+                files += ["schwifty/bban.py", "schwifty/checksum/*.py"]
+            if d["id"] in ("C14", "C15", "C16", "C17"):
+                files = ["*"]
+            out[d["id"]] = files
+    except OSError:
+        pass
+    return out
+
+
+PROP_FILES = _prop_files()
+
+
 def count_obligations(pid):
     """Theorems / lemmas / examples in Props/<pid>.v plus the shared data obligations it imports."""
     names = []
@@ -251,7 +271,15 @@ def check(pid, tier, seed):
         facts_path = os.path.join(COQ, "theories", "Gen", "facts.json")
     obligations = count_obligations(pid)
     drift = tr.get("drift", [])
-    escalate = bool(broken) or any(d in P.get("drift_sensitive", []) or True for d in drift)
+    # drift of a hand-modelled function (src:<path>::<name>) widens only the checks of properties anchored in that file
+    def _relevant(d):
+        if not d.startswith("src:"):
+            return True
+        path = d[4:].split("::")[0]
+        import fnmatch
+        return any(fnmatch.fnmatch(path, pat) for pat in PROP_FILES.get(pid, ["*"]))
+    drift = [d for d in drift if _relevant(d)]
+    escalate = bool(broken) or bool(drift)
     eff_tier = "thorough" if (escalate and (broken or drift)) else tier
 
     stats = {"evaluations": 0, "distinct": set(), "nontrivial": set(), "by_stream": {}, "samples": [],
